@@ -228,8 +228,15 @@ func judge(v viol, clause string, p poolKind, j *hashJob, got []byte, problem st
 }
 
 func mkJob(rng *rand.Rand, n, fillKind, hdrKind int, splitKind string) *hashJob {
-	j := &hashJob{Len: n, Split: splitKind}
-	j.data, j.Fill = fillData(rng, n, fillKind)
+	data, fill := fillData(rng, n, fillKind)
+	return mkJobFrom(rng, data, fill, hdrKind, splitKind)
+}
+
+// mkJobFrom makes a job over given data (so the oracle's Merkle root can be shared by the
+// jobs that differ in header and write split only).
+func mkJobFrom(rng *rand.Rand, data []byte, fill string, hdrKind int, splitKind string) *hashJob {
+	n := len(data)
+	j := &hashJob{Len: n, Split: splitKind, data: data, Fill: fill}
 	j.span, j.HdrKind = header(rng, hdrKind, n)
 	j.Header = fmt.Sprintf("%x", j.span)
 	j.Pieces = split(rng, splitKind, n)
@@ -256,12 +263,13 @@ func setPerturb(mode int, seed uint64) string {
 func TestSmallPoolEveryLength(t *testing.T) {
 	run := obs.Start(t, "C03")
 	defer run.Done()
-	run.Rule("128-segment pool (capacity 3): EVERY data length 0..4096, each with 4 headers {zero,len,2^64-1,random} x 3 write splits (one write; random cuts incl. zero-length writes; cuts around 32/64-byte boundaries or 1..3-byte writes); hashers alternately fresh from the pool and the same object after Reset; distinct = (length, split kind); blocks of 64 lengths alternate no / seeded-yield / yield+sleep perturbation at the H8 points",
+	run.Rule("128-segment pool (capacity 3): EVERY data length 0..4096, each with 3 write splits (one write; random cuts incl. zero-length writes; cuts around 32/64-byte boundaries or 1..3-byte writes) x header kinds {zero,len,2^64-1,random} (quick: one header kind per split, rotating with the length; thorough: all four); hashers alternately fresh from the pool and the same object after Reset; distinct = (length, split kind); blocks of 64 lengths alternate no / seeded-yield / yield+sleep perturbation at the H8 points",
 		"abandoning a hasher mid-hash is API misuse and never done", "headers are always set with 8 bytes")
 	installHooks()
 	defer func() { cur = nil }()
 	p := smallPool(3)
 	capB := p.capBytes()
+	headersPerSplit := run.N(1, 4)
 	var evals, cross int64
 	for b := 0; b <= capB/64; b++ {
 		lo, hi := b*64, b*64+63
@@ -276,15 +284,18 @@ func TestSmallPoolEveryLength(t *testing.T) {
 		mode := setPerturb(b, uint64(run.Seed())<<20^uint64(b))
 		var held *bmt.Hasher
 		for n := lo; n <= hi; n++ {
-			fk := rng.Intn(8)
+			data, fill := fillData(rng, n, rng.Intn(8))
+			root := spec.BMTRoot(data, p.segments)
 			kinds := []string{"one", "random", []string{"sectionish", "tiny"}[n%2]}
-			for hk := 0; hk < 4; hk++ {
-				for _, sk := range kinds {
-					j := mkJob(rng, n, fk, hk, sk)
-					want := spec.BMTFast(j.span, j.data, p.segments)
-					if (n+hk)%97 == 0 {
+			for hk := 0; hk < headersPerSplit; hk++ {
+				for si, sk := range kinds {
+					// quick: one header per split, rotating so that every (header, split) pair
+					// occurs every 4 lengths; thorough: all 4 headers for every split
+					j := mkJobFrom(rng, data, fill, n+si+hk, sk)
+					want := spec.Keccak256(j.span, root)
+					if (n+hk)%97 == 0 && si == 0 {
 						if plain := spec.BMTSegments(j.span, j.data, p.segments); !bytes.Equal(plain, want) {
-							t.Fatalf("oracle self-check failed: BMTFast != BMTSegments for len %d", n)
+							t.Fatalf("oracle self-check failed: sparse evaluation != BMTSegments for len %d", n)
 						}
 						cross++
 					}
@@ -317,7 +328,7 @@ func TestSmallPoolEveryLength(t *testing.T) {
 	}
 	run.Stat("hashes_small_pool_every_length", evals)
 	run.Stat("oracle_crosschecks", cross)
-	run.Sample(map[string]interface{}{"kind": "every length", "pool": "128 segments", "lengths": "0..4096", "headers": 4, "splits": 3})
+	run.Sample(map[string]interface{}{"kind": "every length", "pool": "128 segments", "lengths": "0..4096", "headers_per_split": headersPerSplit, "splits": 3})
 }
 
 func prodLengths(rng *rand.Rand, capB int, nRandom int, denseTail int) []int {
@@ -355,13 +366,13 @@ func prodLengths(rng *rand.Rand, capB int, nRandom int, denseTail int) []int {
 func TestProdPoolBoundaries(t *testing.T) {
 	run := obs.Start(t, "C03")
 	defer run.Done()
-	run.Rule("production pool bmtpool (8192 segments, 256 KiB): lengths 0,1,31..33,63..65,95..97,127..129, 2^k*32-1/+0/+1 (k=1..13), cap-64..cap, plus random lengths; each with 3 write splits and a rotating header kind; hashers from bmtpool.Get/Put, every third reused after Reset; distinct = (length, split kind)")
+	run.Rule("production pool bmtpool (8192 segments, 256 KiB): lengths 0,1,31..33,63..65,95..97,127..129, 2^k*32-1/+0/+1 (k=1..13), cap-64..cap, plus random lengths; 3 write splits per length (quick: 1 split for most lengths of the dense tail below capacity) with rotating header kinds; hashers from bmtpool.Get/Put, every third reused after Reset; distinct = (length, split kind)")
 	installHooks()
 	defer func() { cur = nil }()
 	p := prodPool()
 	capB := p.capBytes()
 	lrng := run.RandFor("prod-lengths")
-	lengths := prodLengths(lrng, capB, run.N(40, 600), run.N(64, 256))
+	lengths := prodLengths(lrng, capB, run.N(20, 600), run.N(64, 256))
 	var evals, cross int64
 	for idx, n := range lengths {
 		c := run.Begin(fmt.Sprintf("len/%d", n), map[string]interface{}{"pool": p.name, "len": n})
@@ -372,12 +383,17 @@ func TestProdPoolBoundaries(t *testing.T) {
 		mode := setPerturb(idx, uint64(run.Seed())<<24^uint64(n))
 		var held *bmt.Hasher
 		kinds := []string{"one", "random", []string{"sectionish", "tiny"}[idx%2]}
+		if d := capB - n; !run.Thorough() && n > capB/2+1 && d > 1 && d != 64 && d != 63 && (d < 31 || d > 33) {
+			kinds = kinds[idx%3 : idx%3+1]
+		}
+		data, fill := fillData(rng, n, 2+rng.Intn(6))
+		root := spec.BMTRoot(data, p.segments)
 		for si, sk := range kinds {
-			j := mkJob(rng, n, 2+rng.Intn(6), idx+si, sk)
-			want := spec.BMTFast(j.span, j.data, p.segments)
-			if idx%16 == 0 && si == 0 {
+			j := mkJobFrom(rng, data, fill, idx+si, sk)
+			want := spec.Keccak256(j.span, root)
+			if idx%24 == 0 && si == 0 {
 				if plain := spec.BMT(j.span, j.data); !bytes.Equal(plain, want) {
-					t.Fatalf("oracle self-check failed: BMTFast != BMT for len %d", n)
+					t.Fatalf("oracle self-check failed: sparse evaluation != BMT for len %d", n)
 				}
 				cross++
 			}
@@ -426,8 +442,8 @@ func TestReuse(t *testing.T) {
 		nseq := run.N(210, 2100)
 		cyc := 24
 		if p.segments > 128 {
-			nseq = run.N(14, 140)
-			cyc = 12
+			nseq = run.N(7, 140)
+			cyc = run.N(8, 12)
 		}
 		for s := 0; s < nseq; s++ {
 			pat := patterns[s%len(patterns)]
@@ -556,7 +572,7 @@ func TestArrivalOrders(t *testing.T) {
 				continue
 			}
 			rng := c.Rand()
-			n := run.N(400, 4000)
+			n := run.N(300, 3000)
 			for i := 0; i < n; i++ {
 				var l int
 				switch i % 4 {
@@ -624,12 +640,12 @@ func TestConcurrentPoolUsers(t *testing.T) {
 		for _, kind := range []string{"seg128", "bmtpool8192"} {
 			for mode := 0; mode < 2; mode++ {
 				var p poolKind
-				workers, iters, corpusN := 48, run.N(50, 500), 300
+				workers, iters, corpusN := 48, run.N(30, 400), 300
 				if kind == "seg128" {
 					p = smallPool(4)
 				} else {
 					p = prodPool()
-					workers, iters, corpusN = 40, run.N(8, 80), 120
+					workers, iters, corpusN = 40, run.N(4, 50), 128
 				}
 				capB := p.capBytes()
 				c := run.Begin(fmt.Sprintf("phase/%s/gomaxprocs=%d/mode=%d", kind, gmp, mode),
@@ -648,9 +664,9 @@ func TestConcurrentPoolUsers(t *testing.T) {
 						n = capB - rng.Intn(3)*rng.Intn(64)
 					case kind == "seg128":
 						n = rng.Intn(capB + 1)
-					case i%8 == 0:
+					case i%16 == 0:
 						n = capB - rng.Intn(2)*rng.Intn(5000) // big
-					case i%8 == 1:
+					case i%16 == 8:
 						n = 4097 + rng.Intn(capB-4097) // big
 					default:
 						n = rng.Intn(4097)
